@@ -140,7 +140,7 @@ def opsC09 : List (String × Handler) := [
       | none => throw "negative"
       | some ys => return fmt ys),
   -- c09.step <nres> <kernel-arg> <corrector-arg> <nk> (<kind> p1 p2 p3)*nk <p> then per residual: N d R… J…
-  --   reply: lossTotal, then the p components of the stacked J'ᵀR' (model: lossTotal, stepJtR); err index = IndexError
+  --   reply: lossTotal, the p components of the stacked J'ᵀR', the p·p entries of J'ᵀJ' (model: lossTotal, stepJtR, stepJtJ); err index = IndexError
   ("c09.step", fun ts => do
       match ts with
       | n :: rest => do
@@ -172,7 +172,9 @@ def opsC09 : List (String × Handler) := [
               (e.1, e.2.1, (fun i a => getA e.2.2.1 (i * e.2.1 + a)), fun i a l => getA e.2.2.2 ((i * e.2.1 + a) * p + l))
             let loss := lossTotal (fun c => (specOfK c).val) ks nres resL
             let g := (List.range p).map fun l => stepJtR sem cs nres resS l
-            return fmt (loss :: g)
+            -- pass 10: then the p·p entries of the stacked J'ᵀJ' (model: stepJtJ), row-major
+            let h := (List.range p).flatMap fun l => (List.range p).map fun m => stepJtJ sem cs nres resS l m
+            return fmt (loss :: g ++ h)
           | _ => throw "arity"
         | _ => throw "arity"
       | _ => throw "arity"),
